@@ -507,19 +507,14 @@ Qed.
 Definition no_service_data (raw : bytes) : bool :=
   wf_header_only_error raw
   || match byte_at 49 raw with Some n => Z.of_nat (length raw) =? 50 + 2 * n | None => false end.
-(* what the code still gets wrong: with two or more additional-status words (and encapsulation
-   status 0) the additional status itself is read as reply count and offset table *)
-Definition multi_ext_guard (raw : bytes) : bool :=
-  encap_zero raw && match byte_at 49 raw with Some n => 2 <=? n | None => false end.
-
 Lemma collect_results_fill : forall reqs k t0,
   collect_results k reqs (map (fun _ => t0) reqs) = map (fun q => post_multi q t0) reqs.
 Proof. induction reqs as [|q reqs IH]; intros k t0; cbn [map collect_results]; [reflexivity|]. f_equal. apply IH. Qed.
 
 Lemma parse_multi_nothing reqs raw : bytes_ok raw = true -> wf_error KUnit raw = true ->
-  no_service_data raw = true -> multi_ext_guard raw = false -> parse_multi reqs raw = (parse_unit raw, []).
+  no_service_data raw = true -> parse_multi reqs raw = (parse_unit raw, []).
 Proof.
-  intros Hok Hw Hn Hg. unfold parse_multi.
+  intros Hok Hw Hn. unfold parse_multi.
   destruct (parse_cip_spec 46 48 50 raw Hok) as (_ & _ & _ & P4 & P5). fold (parse_unit raw) in P4, P5.
   destruct (wf_header_only_error raw) eqn:Eh.
   { unfold wf_header_only_error in Eh. apply andb_true_iff in Eh as [Hl _]. apply Nat.eqb_eq in Hl.
@@ -537,23 +532,20 @@ Proof.
   destruct H48 as [g H48]. rewrite H48, Hrb in P5. destruct P5 as (_ & _ & Q3 & Q4).
   unfold encap_status in Ee. rewrite Ee in P4, Q4. cbn [option_map is_none] in P4, Q4. rewrite Q4, P4, Q3.
   cbn [orb opt_is]. unfold SUCCESS. rewrite (to_signed4_zero e (u32_range 8 raw e Hok Ee)).
-  destruct (e =? 0) eqn:E0; [|reflexivity]. cbn [negb].
-  unfold multi_ext_guard, encap_zero, encap_status, byte_at in Hg. rewrite Ee, E0, E49 in Hg. cbn [andb] in Hg.
-  assert (Hl : length (skipn 50 raw) = Z.to_nat (2 * n)) by (rewrite skipn_length; lia).
-  assert (Hn01 : n = 0 \/ n = 1) by lia. destruct Hn01 as [->| ->].
-  - destruct (skipn 50 raw); [reflexivity|cbn in Hl; lia].
-  - destruct (skipn 50 raw) as [|a [|b [|c q]]]; cbn in Hl; try lia.
-    unfold split_multi. rewrite decode_elem_full by (rewrite UINT_eq; cbn; lia).
-    unfold slice. cbn [skipn]. rewrite firstn_nil. reflexivity.
+  destruct (e =? 0) eqn:E0; [|reflexivity]. cbn [negb orb].
+  rewrite no_additional_status_spec, E49.
+  destruct (n =? 0) eqn:En0; [|reflexivity]. cbn [negb].
+  assert (Hl : length (skipn 50 raw) = 0%nat) by (rewrite skipn_length; lia).
+  destruct (skipn 50 raw); [reflexivity|cbn in Hl; lia].
 Qed.
 
 Theorem multi_wf_error reqs raw : reqs <> [] -> bytes_ok raw = true -> wf_error KUnit raw = true ->
-  no_service_data raw = true -> multi_ext_guard raw = false ->
+  no_service_data raw = true ->
   exists tags, rw_multi reqs raw = ROk tags /\ tags <> [] /\ Forall falsy_text tags.
 Proof.
-  intros Hne Hok Hw Hn Hg.
+  intros Hne Hok Hw Hn.
   destruct (error_of_wf_error KUnit raw (or_introl eq_refl) Hok Hw) as (Hv & e & He & Hnee). cbn [parse_k] in Hv, He.
-  unfold rw_multi. rewrite (parse_multi_nothing reqs raw Hok Hw Hn Hg). cbn [multi_tags length skipn].
+  unfold rw_multi. rewrite (parse_multi_nothing reqs raw Hok Hw Hn). cbn [multi_tags length skipn].
   destruct reqs as [|q qs]; [congruence|].
   unfold rest_error. rewrite He. destruct e as [|c e']; [congruence|].
   cbn [app]. rewrite collect_results_fill.
